@@ -272,7 +272,26 @@ func sameKey(a, b xk) bool {
 // childStep: one Child call, emitted as a model line and checked against the reference.
 func (g *G) childStep(x xk, i uint32) (xk, bool) {
 	k := x.build()
+	// what a derivation yields does not depend on what was done with other children of the same key object: in one
+	// call out of three a sibling is derived and wiped (Zero, as the keystore does with every address key) before,
+	// in another one after the derivation under test
+	sibling := func() {
+		j := (i + 1) % hardened
+		if x.priv && i >= hardened {
+			j += hardened
+		}
+		if sib, e := k.Child(j); e == nil {
+			sib.Zero()
+		}
+	}
+	mode := g.h.Rng.Intn(3)
+	if mode == 1 {
+		sibling()
+	}
 	c, err := k.Child(i)
+	if mode == 2 {
+		sibling()
+	}
 	out := res(c, err)
 	orc := childOracles(x, i)
 	g.h.Emit("child "+x.tok()+" "+strconv.FormatUint(uint64(i), 10)+" "+strings.Join(orc, " "), out)
